@@ -89,6 +89,10 @@ def enqueue (s : St) (a : Act) : St × List Cmd :=
   | .ewrAdd wr e v =>
     -- `EntityCommands::add_world_reactor` queues a syscall; `EntityReactor::add` looks the entity up again when it runs
     if s.alive e then (s, [.ewrAdd e wr v (s.ewrSys wr)]) else (s, [])
+  | .ewrAddNow wr e v =>
+    -- `EntityReactor::add` called by the body itself: the entity is looked up now; the local data (`try_insert`) and the
+    -- registration (`ReactCommands::with`, persistent) are queued behind whatever the body queued before
+    if s.alive e then (s, [.ewrInsertLocal e wr v, .register (ewrBundle wr e) (s.ewrSys wr) .persistent]) else (s, [])
   | .ewrRemove wr trigs =>
     (s, [.revoke (s.ewrSys wr) trigs] ++ (uniqueEntities trigs []).map (fun e => Cmd.ewrCleanupData (s.ewrSys wr) e wr))
   | .wrAdd wr trigs => (s, [.register trigs (s.wrSys wr) .persistent])
